@@ -63,6 +63,8 @@ package phyloxml
 //@   call (*tree.Node).SetName [name_then_scientific_name_then_code] a0 == newNode && ((c.Name != "" && a1 == c.Name) || (c.Name == "" && c.Tax.ScientificName != "" && a1 == c.Tax.ScientificName) || (c.Name == "" && c.Tax.ScientificName == "" && c.Tax.Code != "" && a1 == c.Tax.Code))
 //@   call (*tree.Tree).SetRoot [only_the_outermost_clade_becomes_the_root] parent == nil && a1 == newNode
 //@   call io/phyloxml.cladeToTree [sub_clades_are_converted_under_the_new_node_with_the_same_counters] a1 == t && a2 == newNode && a3 == nedges && a4 == nnodes
+//@   loop 1
+//@     complete [all_iterations_no_early_exit]
 
 //@ func io/phyloxml.writeClade
 //@   flag noframe
@@ -80,6 +82,8 @@ package phyloxml
 //@   call (*tree.Edge).LengthString [the_length_of_the_branch_leading_to_the_node] a0 == e && e.length != -1.0
 //@   call (*tree.Edge).SupportString [the_support_of_the_branch_leading_to_an_inner_node] a0 == e && e.support != -1.0 && len(n.neigh) != 1
 //@   call io/phyloxml.writeClade [every_other_neighbour_is_written_one_level_deeper_with_the_branch_leading_to_it] a0 == child && child != prev && a1 == n && a2 == nextedge && nextedge == n.br[rangeindex + 1] && a3 == buf && a4 == level + 1
+//@   loop 1
+//@     complete [all_iterations_no_early_exit]
 
 // writePhylogeny / WritePhyloXML (property C13): one phylogeny element per tree received, opened with the tree's own
 // rootedness, holding the clade of the tree's root (no parent, no branch, first level), then closed; the first erroneous
